@@ -85,7 +85,7 @@ def run(ctx):
             f = enc.split(" ")
             max_up = int(f[0]) or DEFAULT_MAX
             cl = int(f[2])
-            sizes = [int(p.split(":")[4]) for p in f[10].split(";") if p != "-"]
+            sizes = [int(p.split(":")[4]) for p in f[11].split(";") if p != "-"]
             branch["mp:" + cls] += 1
             if cls not in ("exec",) or readers != "-":
                 nontriv.add(enc)
@@ -100,7 +100,7 @@ def run(ctx):
                 why.append("ContentLength %d > MaxUploadSize %d but the request was not rejected" % (cl, max_up))
             tail = int(f[4])
             if cls in ("exec", "gql-error") and tail > 0:
-                hdrs = [int(p.split(":")[3]) for p in f[10].split(";") if p != "-"]
+                hdrs = [int(p.split(":")[3]) for p in f[11].split(";") if p != "-"]
                 consumed = sum(hdrs) + sum(sizes) + tail
                 if consumed > max_up:
                     why.append("a body of %d bytes was parsed to the end with MaxUploadSize %d" % (consumed, max_up))
@@ -116,7 +116,7 @@ def run(ctx):
             for w in why:
                 spec_fail.append((r, w))
             if m is not None:
-                mf = m.split(" ")
+                mf = m.split(" ", 9)
                 if len(mf) < 10:
                     div.append((r, m, "model could not run the case"))
                     continue
